@@ -920,7 +920,9 @@ def check(facts, rep, tier, cfg):
     check_r4(facts, rep, crate)
     check_r5(facts, rep, crate)
     check_r6_callsite_codes(facts, rep)
-
+    rep.rule("C18.S7", "no new process-wide mutable state (static cell / lock / once-cell) in the files this property is anchored in")
+    import whomay
+    whomay.check_new_statics(facts, rep, "C18.S7", "C18")
 
 
 def check_r6_callsite_codes(facts, rep):
